@@ -62,7 +62,7 @@ def o1_tx(ctx, n, kind, entry):
     ctx.reached()
 
 
-def o2_rx(ctx, count, dynamic):
+def o2_rx(ctx, count, dynamic, mixed=False):
     clock = fresh_env(ctx)
     radio, nrf = new_rf24(clock)
     if dynamic:
@@ -70,13 +70,19 @@ def o2_rx(ctx, count, dynamic):
     else:
         nrf.dynamic_payloads = False
         nrf.payload_length = list(STATIC_LENS)
+    if mixed:  # dynamic lengths on pipes 1-5 only; pipe 0 has a static width (its payloads are 5 bytes wide)
+        nrf.set_dynamic_payloads(False, 0)
+        nrf.set_payload_length(5, 0)
     for p in range(6):
         nrf.open_rx_pipe(p, bytes([0x30 + p, 1, 2, 3, 4]))
     nrf.listen = True
     sent = []
     for i in range(count):
         pipe = ctx.int("pipe%d" % i, 0, 5)
-        if dynamic:
+        if mixed:
+            pipe = ctx.conc(pipe)
+            ln = 5 if pipe == 0 else (1, 32, 7)[i]
+        elif dynamic:
             ln = (1, 32, 7)[i]
         else:
             pipe = ctx.conc(pipe)
@@ -155,7 +161,17 @@ def o3_link(ctx, count, pipe, pl, rate, via, reenter=False, history=False):
         ask = 1
     lens = [(3, 32, 1)[i] for i in range(count)]
     bufs = [ctx.bytes("msg%d" % i, ln) for i, ln in enumerate(lens)]
-    if via == "send":
+    if via == "write4":
+        # four uploads while CE stays low: the TX FIFO holds three, the fourth is refused (False) and must not displace anything
+        a.ce_pin = False
+        extra = ctx.bytes("msg_extra", 2)
+        res = [a.write(x, ask, True) for x in bufs]
+        ctx.check(a.write(extra, ask, True) == False, "write() answers False when the TX FIFO is full")  # noqa: E712
+        a.ce_pin = True
+        for _ in range(6):
+            a.update()
+        a.ce_pin = False
+    elif via == "send":
         res = [a.send(x, ask) for x in bufs]
     elif via == "sendlist":
         res = a.send(list(bufs), ask)
@@ -180,7 +196,7 @@ def o3_link(ctx, count, pipe, pl, rate, via, reenter=False, history=False):
     ctx.reached()
 
 
-def o3_pingpong(ctx, pipe, pl, reply, tx_open_in_rx=False):
+def o3_pingpong(ctx, pipe, pl, reply, tx_open_in_rx=False, stale_ack=False):
     """two transceivers: each reads on `pipe` at its own address and transmits to the peer's.  A -> B two payloads; B
     answers (send_only: its RX FIFO is not its business) BEFORE reading them; then both sides read: everything handed to
     send() arrives byte-for-byte, once, in order, in both directions"""
@@ -215,6 +231,16 @@ def o3_pingpong(ctx, pipe, pl, reply, tx_open_in_rx=False):
             n.payload_length = pl
         n.open_rx_pipe(pipe, own)
         n.open_tx_pipe(peer)
+    if stale_ack:
+        # B prepared an ACK payload that nobody will ever fetch (A sends without asking for acknowledgements): when B later
+        # transmits, only what it hands to send() may go out
+        allow = bool(ctx.choice("allow_ask_no_ack", 2))
+        for n in (a, b):
+            n.ack = True
+            n.allow_ask_no_ack = allow
+        b.listen = True
+        # (for a pipe nobody transmits to, so that A's payloads are acknowledged plainly)
+        ctx.check(b.load_ack(ctx.bytes("stale", 3), pipe % 5 + 1) == True, "load_ack() accepted")  # noqa: E712
     b.listen = True
     a.listen = False
     a.open_tx_pipe(addr_b)  # (pipe 0 carries the reading address while listening: the TX pipe is opened again in TX mode, C08)
@@ -277,6 +303,7 @@ def jobs(tier):
     for count in ((1, 3) if tier == "quick" else (1, 2, 3)):
         for dynamic in (True, False):
             out.append(Job("O2-rx-side", o2_rx, dict(count=count, dynamic=dynamic), cost=count * 3))
+        out.append(Job("O2-rx-side-mixed-per-pipe-modes", o2_rx, dict(count=count, dynamic=True, mixed=True), cost=count * 6))
     if tier == "quick":
         combos = [(1, p, pl, 1, "send") for p in range(6) for pl in (None, 1, 5, 32)]
         combos += [(3, 1, None, 2, "sendlist"), (2, 0, 4, 250, "write"), (3, 4, 2, 1, "send"), (3, 5, 32, 2, "sendlist")]
@@ -287,6 +314,8 @@ def jobs(tier):
                   and (r == 1 or pl in (None, 1, 32))]
     for c, p, pl, r, v in combos:
         out.append(Job("O3-link", o3_link, dict(count=c, pipe=p, pl=pl, rate=r, via=v), cost=5 * c))
+    for p, pl in ((1, None), (0, 3)):
+        out.append(Job("O3-link-four-uploads", o3_link, dict(count=3, pipe=p, pl=pl, rate=1, via="write4"), cost=10))
     for p, pl, r in ((1, None, 1), (4, 5, 250), (0, 32, 2)):
         out.append(Job("O3-link-after-a-configuration-history", o3_link, dict(count=1, pipe=p, pl=pl, rate=r, via="send", history=True), cost=6))
     for p, pl in ((1, None), (3, 5), (0, 32)):
@@ -297,6 +326,7 @@ def jobs(tier):
                 out.append(Job("O3-link-both-directions", o3_pingpong, dict(pipe=pipe, pl=pl, reply=reply), cost=12))
         out.append(Job("O3-link-both-directions", o3_pingpong, dict(pipe=pipe, pl=None, reply="single", tx_open_in_rx=True), cost=12))
         out.append(Job("O3-link-both-directions", o3_pingpong, dict(pipe=pipe, pl=4, reply="none", tx_open_in_rx=True), cost=12))
+    out.append(Job("O3-link-both-directions-stale-ack-payload", o3_pingpong, dict(pipe=1, pl=None, reply="single", stale_ack=True), cost=12))
     return out
 
 
